@@ -34,6 +34,9 @@ func (ex *Exec) eval(st *State, e ast.Expr) Val {
 	if tv, ok := ex.P.Info.Types[e]; ok && tv.Value != nil {
 		return constVal(tv.Value, tv.Type)
 	}
+	if v, ok := ex.floatKernel(st, e); ok {
+		return v
+	}
 	switch e := e.(type) {
 	case *ast.ParenExpr:
 		return ex.eval(st, e.X)
@@ -643,8 +646,12 @@ func (ex *Exec) floatOp(st *State, n ast.Node, op token.Token, a, b *Term) *Term
 	if ex.floatModel == "rounding-error" {
 		return ex.rounded(st, exact)
 	}
-	ex.note("float64 arithmetic treated as exact real arithmetic outside the rounding-error model")
-	return exact
+	// outside a float model the result of a float64 operation is uninterpreted (sound
+	// over-approximation); float kernels backed by FP lemmas are matched before (floatKernel)
+	name := "fp$" + map[token.Token]string{token.ADD: "add", token.SUB: "sub", token.MUL: "mul", token.QUO: "div"}[op]
+	DeclareFun(name, []Sort{SReal, SReal}, SReal)
+	ex.note("float64 arithmetic outside a float model: results uninterpreted")
+	return App(name, SReal, a, b)
 }
 
 // rounded: IEEE-754 round-to-nearest as an uninterpreted monotone function with
@@ -786,8 +793,13 @@ func (ex *Exec) convert(st *State, n ast.Node, v Val, to types.Type) Val {
 }
 
 func (ex *Exec) provablyWithin(st *State, cond *Term) bool {
-	// cheap syntactic attempt only; otherwise assume not
-	return cond == True
+	if cond == True {
+		return true
+	}
+	// quick solver query: do the current facts imply the bound?
+	g := &Obligation{Name: ex.Fn.Key + "#exact-conv", Kind: "auto", Func: ex.Fn.Key, Facts: append([]*Term(nil), st.facts...), Goal: cond, Auto: true}
+	ex.quickSolve([]*Obligation{g})
+	return g.Status == "proved"
 }
 
 func (ex *Exec) convInt(v Val, from, to types.Type) Val {
